@@ -626,7 +626,11 @@ pub fn float_model_val(op: &Op) -> Val {
 
 /// Builds a float image of `class` from a logical value through the public constructor.
 pub fn float_obj(class: u64, bits: &[[u32; 3]], w: usize, h: usize, t: u64, p: u64) -> Result<Obj, yuvxyb::CreationError> {
-    let data = floats_of(bits);
+    float_obj_from_vec(class, floats_of(bits), w, h, t, p)
+}
+
+/// Same, handing the constructor this very vector (its allocation becomes the image's).
+pub fn float_obj_from_vec(class: u64, data: Vec<[f32; 3]>, w: usize, h: usize, t: u64, p: u64) -> Result<Obj, yuvxyb::CreationError> {
     Ok(match class {
         CL_RGB => Obj::Rgb(Arc::new(Rgb::new(data, w, h, TRCS[t as usize], PRIS[p as usize])?)),
         CL_LIN => Obj::Lin(Arc::new(LinearRgb::new(data, w, h)?)),
